@@ -238,7 +238,7 @@ func (c *condNorm) orient() {
 				return nil
 			}
 			alt := &ast.BinaryExpr{X: b.Y, OpPos: b.OpPos, Op: op, Y: b.X}
-			if c.wants(b, alt) {
+			if !needsParens(alt, "X", alt.X) && !needsParens(alt, "Y", alt.Y) && c.wants(b, alt) {
 				return alt
 			}
 		}
@@ -247,7 +247,7 @@ func (c *condNorm) orient() {
 				return nil
 			}
 			alt := &ast.BinaryExpr{X: b.Y, OpPos: b.OpPos, Op: b.Op, Y: b.X}
-			if c.wants(b, alt) {
+			if !needsParens(alt, "X", alt.X) && !needsParens(alt, "Y", alt.Y) && c.wants(b, alt) {
 				return alt
 			}
 		}
